@@ -1178,6 +1178,9 @@ def run(program, rep, tier):
     # get(T) visits each type once (C06's rule for the walk of get)
     from rules import c06
     rep.borrow(c06.run, program, rep, 'quick',
-               keep=lambda o: o.rule == 'C06.once',
+               keep=lambda o: o.rule in ('C06.once', 'C06.closure')
+               and o.site.endswith(('World._get', 'World.get')),
                rename=lambda r: 'C01.' + r.split('.')[1],
-               why='get(T) lists a pair twice')
+               why='get(T) lists a pair twice, or misses components of an '
+               'indirect subtype that has_component / get_component / '
+               'get(<subtype>) report')
